@@ -232,7 +232,8 @@ def dag_facts(dag, plan=None):
 
     names = list(dag.nodes)
     idx = {n: i for i, n in enumerate(names)}
-    edges = sorted({(idx[u], idx[v]) for u, v in dag.edges()})
+    all_edges = [(idx[u], idx[v]) for u, v in dag.edges()]
+    edges = sorted(set(all_edges))
     data = dict(dag.nodes(data=True))
     pipeline, computed, advertised, real, kinds = [], [], {}, {}, {}
     for n in names:
@@ -259,6 +260,8 @@ def dag_facts(dag, plan=None):
         "create": idx.get("create-arrays"),
         "arrays": idx.get("arrays"),
         "plan_total": (plan.num_tasks if plan is not None else None),
+        # (u, v) pairs joined by more than one edge (an op taking the same array twice)
+        "multi_edges": sorted({e for e in all_edges if all_edges.count(e) > 1}),
     }
     # array node -> store path component (the array name is the path inside the intermediate store)
     facts["array_of_path"] = {n: idx[n] for n in names if data[n].get("type") == "array" or "target" in data[n]}
@@ -269,7 +272,18 @@ def dag_facts(dag, plan=None):
 # programs
 # ------------------------------------------------------------------------------------------------------
 
-PROGRAM_KINDS = ["branches", "diamond", "chain", "unstack", "qr", "rechunk", "reduce", "region", "store", "mixed"]
+PROGRAM_KINDS = ["branches", "diamond", "chain", "unstack", "qr", "rechunk", "reduce", "region", "store", "mixed",
+                 "repeat_shared", "repeat_direct", "repeat_rechunk"]
+
+# DAG shapes with PARALLEL EDGES (an op taking the same array on two edges) plus a third input produced later by an op
+# that cannot be fused away: a traversal that releases a node after counting edges instead of predecessors starts the
+# consumer together with that producer.
+REPEAT_KINDS = ["repeat_shared", "repeat_direct", "repeat_rechunk"]
+
+
+def mul_add3(a, b, c):
+    """f(x, x, y) for the three-argument op (module level: picklable for the processes executor)."""
+    return a * b + c
 
 
 def gen_program(rng, kind=None, mismatch=False):
@@ -280,7 +294,7 @@ def gen_program(rng, kind=None, mismatch=False):
     c0 = rng.randint(1, n0)
     c1 = rng.randint(1, n1)
     p = {"kind": kind, "shape": [n0, n1], "chunks": [c0, c1]}
-    if kind == "rechunk" or kind == "mixed":
+    if kind == "rechunk" or kind == "mixed" or kind == "repeat_rechunk":
         p["rechunk"] = [rng.randint(1, n0), rng.randint(1, n1)]
     if kind == "chain":
         p["len"] = rng.randint(2, 4)
@@ -351,6 +365,23 @@ def build_program(p, spec, tmpdir):
         c = xp.sum(b, axis=1)
         d = xp.multiply(a, 3.0)
         return [c, xp.add(d, a)]
+    if k == "repeat_shared":
+        # z = x*x + y ; with optimize_graph the multiply is fused into the add: sources (x, x, y);
+        # y has a second consumer, so its producer stays a separate op
+        y = xp.add(a, 100.0)
+        z = xp.add(xp.multiply(a, a), y)
+        return [z, xp.negative(y)]
+    if k == "repeat_direct":
+        # a direct three-argument op f(x, x, y): parallel edges x -> op with or without optimization
+        y = xp.add(a, 100.0)
+        z = cubed.map_blocks(mul_add3, a, a, y, dtype=a.dtype)
+        return [z, xp.negative(y)]
+    if k == "repeat_rechunk":
+        # y comes out of a rechunk (never fused into its consumer); x2*x2 + y with the multiply fused in when optimizing
+        rc = tuple(p["rechunk"])
+        a2 = xp.asarray(an, chunks=rc, spec=spec)
+        y = xp.add(a, 100.0).rechunk(rc)
+        return [xp.add(xp.multiply(a2, a2), y)]
     if k == "store":
         tgt = os.path.join(tmpdir, "out.zarr")
         return [cubed.to_zarr(xp.add(a, 1.0), tgt, compute=False)]
@@ -562,6 +593,57 @@ def producers(facts):
                 if p != facts["create"]:
                     prod_of_op.setdefault(o, set()).add(p)
     return prod_of_array, prod_of_op
+
+
+def contracted(facts):
+    """The DAG restricted to the executed ops: an edge p -> o whenever p reaches o through skipped nodes only
+    (array nodes, ops without pipeline, ops marked computed).  -> (ops, edges)"""
+    ex = [o for o in facts["pipeline"] if o not in facts["computed"]]
+    exs = set(ex)
+    preds = {}
+    for u, v in facts["edges"]:
+        preds.setdefault(v, set()).add(u)
+    out = set()
+    for o in ex:
+        seen, stack = set(), list(preds.get(o, ()))
+        while stack:
+            n = stack.pop()
+            if n in seen:
+                continue
+            seen.add(n)
+            if n in exs:
+                out.add((n, o))
+            else:
+                stack.extend(preds.get(n, ()))
+    return ex, sorted(out)
+
+
+def encode_contracted(facts):
+    ex, edges = contracted(facts)
+    return "e=%s;p=%s;c=;n=;cr=-;N=%d" % (",".join("%d>%d" % e for e in edges), ",".join(map(str, ex)), len(facts["names"]))
+
+
+def schedule_violations(facts, gens):
+    """Direct check of a schedule the tree under test hands to its executors (`gens`: list of lists of ops):
+    every executed producer of an op (at any distance through skipped nodes) must lie in a strictly earlier
+    generation, and every executed op must occur exactly once.  -> list of (message, detail)"""
+    ex, edges = contracted(facts)
+    names = facts["names"]
+    level = {}
+    out = []
+    for i, g in enumerate(gens):
+        for o in g:
+            if o in level:
+                out.append(("op %s scheduled twice" % names[o], {"op": names[o]}))
+            level[o] = i
+    for o in ex:
+        if o not in level:
+            out.append(("op %s never scheduled" % names[o], {"op": names[o]}))
+    for p, o in edges:
+        if p in level and o in level and not level[p] < level[o]:
+            out.append(("op %s (generation %d) is not scheduled after its producer %s (generation %d)"
+                        % (names[o], level[o], names[p], level[p]), {"op": names[o], "producer": names[p]}))
+    return out
 
 
 def describe(program, cfg, seed, latency):
